@@ -209,7 +209,7 @@ theorem unflatten_flatten (sep : Key) (m : VMap) (r : Bool) (hne : sep ≠ [])
     (fun es' => unflattenEntries (weight (.obj (ofList (F sep m)))) sep r es')
     (fun m' es' h1 h2 h3 h4 => unflattenEntries_spec sep hne r _ m' es' h1 h2 h3 h4)
     m _ hok hperm hlen
-  simp only [unflatten, bytesLossy, hfix, unflattenEntries, h]
+  simp only [unflatten, bytesLossy, hfix, hne, ↓reduceIte, unflattenEntries, h]
 
 open Flat in
 /-- with a non-empty (valid UTF-8) separator `unflatten` never exhausts its depth bound: the
@@ -222,7 +222,7 @@ theorem unflatten_no_overflow (sep : Key) (m : VMap) (r : Bool) (hne : sep ≠ [
   have h := unflattenEntries_isSome sep hne r (weight (.obj m) + 1) (toList m) (by
     rw [mu_toList]; simp only [weight]; omega)
   obtain ⟨m', hm'⟩ := Option.isSome_iff_exists.mp h
-  exact ⟨m', by simp [unflatten, bytesLossy, hfix, hm']⟩
+  exact ⟨m', by simp [unflatten, bytesLossy, hfix, hne, hm']⟩
 
 /-- the domain as the property words it ("keys contain no separator, no empty containers"),
     minus the finding class `D_sep_overlap`, is inside the domain of the theorem. -/
